@@ -48,7 +48,11 @@ def class_inventory(spec):
     return assets, assocs
 
 def check_inventory(spec, mo):
-    assets, assocs = class_inventory(spec)
+    try:
+        assets, assocs = class_inventory(spec)
+    except Exception as e:      # "for every language the generated classes expose …": the factory must not raise
+        return Violation(what=f'the classes of a valid language cannot be generated: LanguageClassesFactory raised {type(e).__name__}: {e}'[:300],
+                         fingerprint='C06:classes:factory-raises:' + type(e).__name__, replay={'spec': spec, 'problems': [repr(e)]})
     ref = Ref(spec, {'assets': [], 'links': []})
     probs = []
     for name, got, *extra in assets:
@@ -126,7 +130,7 @@ def run_history(spec, ops, mo_steps, res):
 
 def run(seed, tier, lean) -> Result:
     rnd = random.Random(seed)
-    res = Result(rule='random languages (inheritance, inherited defenses, duplicate association names, every multiplicity form): class inventory '
+    res = Result(rule='random languages (inheritance, inherited defenses, defenses with composite / numeric TTCs, duplicate association names, every multiplicity form): class inventory '
                       'and default defense values compared with the declaration and the Lean model; histories of valid and invalid constructions '
                       '(defense values -0.1/0/0.25/0.5/1/1.0001, wrong / sibling / super types, maxItems+1, repeated asset, existing link, removed '
                       'asset) with accept/reject and resulting state compared; the real model is scanned after every step for anything that must '
@@ -135,7 +139,7 @@ def run(seed, tier, lean) -> Result:
     cases = []
     for i in range(n):
         r = random.Random(rnd.getrandbits(48))
-        spec = LangGen(r, knobs={'dup_assoc_names': 0.5, 'zero_mult': 0.12}).gen()
+        spec = LangGen(r, knobs={'dup_assoc_names': 0.5, 'zero_mult': 0.12, 'composite_def_ttc': 0.3}).gen()
         cases.append((spec, Gen(r, spec, WEIGHTS, odd_defenses=True).gen(r.randint(6, 40))))
     model = inv = None
     if lean['build_ok']:
